@@ -45,7 +45,7 @@ class Gen:
             kind = ">" if (strict_ok and r.random() < 0.3) else ">="
             if dom == "BOX" or n == 1 or r.random() < 0.5:
                 i = r.randrange(n); s = r.choice([1, 1, -1])
-                rows.append((kind, r.randint(-3, 6) if s < 0 else r.randint(-4, 2), [(n + i, s)]))
+                rows.append((kind, r.randint(3, 9) if s < 0 else r.randint(-4, 2), [(n + i, s)]))
             elif dom == "BDS":
                 i, j = r.sample(range(n), 2)
                 rows.append((kind, r.randint(-3, 4), [(n + i, 1), (n + j, -1)]))
@@ -119,7 +119,7 @@ class Gen:
         mode = mode or r.choice(["one", "one", "two"])
         n = n or r.choice([1, 1, 2])
         strict_ok = dom in ("NNC", "BOX")
-        family = family or r.choice(["dec", "dec", "dec", "inc", "id", "rand", "soup", "soup", "unbounded", "empty", "emptyobj", "universe", "loose"])
+        family = family or r.choice(["dec"] * 8 + ["loose"] * 3 + ["inc", "id", "rand", "rand", "soup", "soup", "soup", "unbounded", "empty", "emptyobj", "universe"])
         dim = 2 * n
         if family == "emptyobj":
             if mode == "one":
